@@ -113,6 +113,20 @@ func runMulti(c *Case) *Result {
 			l.ch <- conns[i]
 			deliver(i, inputs[i][:n])
 			wait(i)
+			if i == 0 && c.Extra["early"] == "1" {
+				// the client hangs up; wait until the server has released the connection
+				conns[0].Hangup()
+				deadline := time.Now().Add(hangTimeout())
+				for time.Now().Before(deadline) {
+					conns[0].mu.Lock()
+					cl := conns[0].closed
+					conns[0].mu.Unlock()
+					if cl {
+						break
+					}
+					time.Sleep(30 * time.Microsecond)
+				}
+			}
 		}
 		for i := 0; i < k; i++ {
 			n, _ := strconv.Atoi(pcs[i])
